@@ -107,4 +107,7 @@ class Timer:
         self.start()
 
     def _unset_task(self, task: asyncio.Future):
-        self._task = None
+        # A cancelled task completes after the timer was restarted: only unset
+        # the task if it is still the current task
+        if self._task is task:
+            self._task = None
